@@ -41,6 +41,15 @@ func (v *Verifier) summaryHook(callerFC *FuncContract) func(ex *Executor, st *St
 			st.Assume(goal)
 		}
 		res := ex.havocResults(st, fn.Signature, "ret."+fn.Name())
+		// the modular call is an event of its own, so that callers' contracts can say
+		// where a value came from ("the stored code is the one generated in this call")
+		var resVals []Value
+		if tv, ok := res.(*TupleV); ok {
+			resVals = tv.V
+		} else if res != nil {
+			resVals = []Value{res}
+		}
+		st.Emit("Call."+fn.Name(), append([]Value(nil), c.Args...), resVals, ex.pos(c.Pos))
 		env = v.newEnv(ex, fn, fc, st, params)
 		env.scratch = st
 		env.ret = res
